@@ -30,6 +30,10 @@ type Plan struct {
 	// Hook, when set, is called at every armed boundary before the real call (the simulator can let other
 	// goroutines run at that point, e.g. a worker racing with a start-up sequence)
 	Hook func(n int, name string)
+	// Only, when set, restricts boundaries to calls for which it returns true (e.g. the calls of one goroutine,
+	// where a second goroutine of the code under test reaches the store in parallel and the n-th call overall
+	// would not be the same call in every execution)
+	Only func() bool
 }
 
 func (p *Plan) Disarm() { p.disarmed = true }
@@ -40,6 +44,9 @@ func (p *Plan) enter(name string, write bool) (n int, fail bool) {
 		return 0, false
 	}
 	if !write && !p.Reads {
+		return 0, false
+	}
+	if p.Only != nil && !p.Only() {
 		return 0, false
 	}
 	p.Calls = append(p.Calls, name)
@@ -239,10 +246,12 @@ type qry struct {
 
 func (q *qry) wrap(n anystore.Query) anystore.Query { return &qry{Query: n, p: q.p, coll: q.coll} }
 
-func (q *qry) Limit(l uint) anystore.Query                 { return q.wrap(q.Query.Limit(l)) }
-func (q *qry) Offset(o uint) anystore.Query                { return q.wrap(q.Query.Offset(o)) }
-func (q *qry) Sort(s ...any) anystore.Query                { return q.wrap(q.Query.Sort(s...)) }
-func (q *qry) IndexHint(h ...anystore.IndexHint) anystore.Query { return q.wrap(q.Query.IndexHint(h...)) }
+func (q *qry) Limit(l uint) anystore.Query  { return q.wrap(q.Query.Limit(l)) }
+func (q *qry) Offset(o uint) anystore.Query { return q.wrap(q.Query.Offset(o)) }
+func (q *qry) Sort(s ...any) anystore.Query { return q.wrap(q.Query.Sort(s...)) }
+func (q *qry) IndexHint(h ...anystore.IndexHint) anystore.Query {
+	return q.wrap(q.Query.IndexHint(h...))
+}
 
 func (q *qry) Iter(ctx context.Context) (anystore.Iterator, error) {
 	n, fail := q.p.enter("query("+q.coll+").Iter", false)
